@@ -1236,7 +1236,9 @@ CONFIG["C07"] = dict(
              "probe_end_activates_records, probe_schedule_in_daemon (one probe through iter, any state), "
              "announcement_needs_active, announced_records_active and the evaluated instances (probe_lifecycle_partial); "
              "registration_starts_probe, registration_probe_lifecycle (registration -> three probes -> record active, any "
-             "state); missing: the two announcements (at +750 and +1750) through iter for a symbolic service",
+             "state), first_announcement / second_announcement (step contracts of wakeService and RegisterResend); "
+             "missing: composing the two announcements (at +750 and +1750) with the probe schedule through iter for a "
+             "symbolic service",
              "the history invariant 'an active record was in the authority section of three probe queries 250 ms apart' is "
              "false of the code without a timely scheduler and for shared probes (findings D31, D33, D34): proved instead is "
              "active_only_after_probe (the probe is at least 750 ms old)",
